@@ -1104,13 +1104,143 @@ def _replace_stmt(root: ast.AST, old: ast.stmt, new: ast.stmt) -> None:
                         return
 
 
+# --------------------------------------------------------------------------------------------- new base classes
+def merge_new_bases(tree: ast.Module, known: Set[str], stats: dict) -> None:
+    """A class of the pinned vocabulary that now inherits from a NEW class of the same module (a maintainer split part of
+    it into a mixin / base class) gets the members it inherits copied back into its own body - the method resolution
+    order makes them its members anyway.  `super().m(..)` statements in a method the class overrides are replaced by the
+    base method's body when the arguments are plain names (constructor chaining of a split class).  Only bases that are
+    themselves base-less (or derive from `object`) and are not known to the vocabulary are merged; the base class itself
+    stays where it is."""
+    classes = {st.name: st for st in tree.body if isinstance(st, ast.ClassDef)}
+
+    def members(c: ast.ClassDef) -> Dict[str, ast.stmt]:
+        out = {}
+        for st in c.body:
+            if isinstance(st, (ast.FunctionDef, ast.AsyncFunctionDef)):
+                out[st.name] = st
+            elif isinstance(st, ast.Assign) and len(st.targets) == 1 and isinstance(st.targets[0], ast.Name):
+                out[st.targets[0].id] = st
+            elif isinstance(st, ast.AnnAssign) and isinstance(st.target, ast.Name):
+                out[st.target.id] = st
+        return out
+
+    for c in list(classes.values()):
+        if c.name not in known:
+            continue
+        for b in c.bases:
+            if not (isinstance(b, ast.Name) and b.id in classes and b.id not in known):
+                continue
+            base = classes[b.id]
+            if any(not (isinstance(x, ast.Name) and x.id == "object") for x in base.bases) or base.keywords or base.decorator_list:
+                continue
+            own = members(c)
+            for name, st in members(base).items():
+                if name not in own:
+                    c.body.append(copy.deepcopy(st))
+                    stats["base_members_merged"] = stats.get("base_members_merged", 0) + 1
+                    continue
+                m, bm = own[name], st
+                if not (isinstance(m, ast.FunctionDef) and isinstance(bm, ast.FunctionDef)):
+                    continue
+                # `super().name(a, b)` as a statement of the overriding method -> the base method's body
+                for i, x in enumerate(list(m.body)):
+                    call = x.value if isinstance(x, ast.Expr) else None
+                    if not (isinstance(call, ast.Call) and isinstance(call.func, ast.Attribute) and call.func.attr == name
+                            and isinstance(call.func.value, ast.Call) and isinstance(call.func.value.func, ast.Name)
+                            and call.func.value.func.id == "super" and not call.func.value.args and not call.keywords):
+                        continue
+                    bparams = [a.arg for a in bm.args.args]
+                    if bm.args.vararg or bm.args.kwarg or bm.args.kwonlyargs or bm.args.posonlyargs or len(bparams) != len(call.args) + 1 \
+                            or not all(isinstance(a, (ast.Name, ast.Constant)) for a in call.args) \
+                            or any(isinstance(n, (ast.Return, ast.Yield, ast.YieldFrom)) for n in ast.walk(bm)) or not m.args.args:
+                        continue
+                    ren = {bparams[0]: ast.Name(id=m.args.args[0].arg, ctx=ast.Load())}
+                    ren.update({pn: a for pn, a in zip(bparams[1:], call.args)})
+                    if any(isinstance(n, ast.Name) and isinstance(n.ctx, ast.Store) and n.id in ren for n in ast.walk(bm)):
+                        continue
+                    body = copy.deepcopy(bm.body)
+
+                    class R(ast.NodeTransformer):
+                        def visit_Name(self, n):
+                            if isinstance(n.ctx, ast.Load) and n.id in ren:
+                                return ast.copy_location(copy.deepcopy(ren[n.id]), n)
+                            return n
+
+                    body = [R().visit(y) for y in body]
+                    for y in body:
+                        for n in ast.walk(y):
+                            ast.copy_location(n, x) if not hasattr(n, "lineno") else None
+                    m.body[i:i + 1] = body
+                    stats["super_calls_inlined"] = stats.get("super_calls_inlined", 0) + 1
+                    break
+    ast.fix_missing_locations(tree)
+
+
+# --------------------------------------------------------------------------------------------- slice objects
+def fold_slice_objects(tree: ast.Module, stats: dict) -> None:
+    """`S = slice(a, b)` (or a conditional expression choosing between slice objects) bound once to a local whose
+    operands are never rebound, used as `x[S]`  ->  `x[a:b]` (resp. `x[a:b] if c else x[d:e]`)."""
+    for fn in [n for n in ast.walk(tree) if isinstance(n, (ast.FunctionDef, ast.AsyncFunctionDef))]:
+        stores: Dict[str, int] = {}
+        for n in ast.walk(fn):
+            if isinstance(n, ast.Name) and isinstance(n.ctx, (ast.Store, ast.Del)):
+                stores[n.id] = stores.get(n.id, 0) + 1
+        params = {a.arg for a in fn.args.posonlyargs + fn.args.args + fn.args.kwonlyargs}
+
+        def is_slice_call(e):
+            return isinstance(e, ast.Call) and isinstance(e.func, ast.Name) and e.func.id == "slice" and not e.keywords and 1 <= len(e.args) <= 3 \
+                and not any(isinstance(a, ast.Starred) for a in e.args)
+
+        def stable(e):
+            return all((stores.get(n.id, 0) + (1 if n.id in params else 0)) <= 1 for n in ast.walk(e) if isinstance(n, ast.Name)) \
+                and not any(isinstance(n, (ast.Call, ast.Await, ast.Yield, ast.YieldFrom, ast.NamedExpr)) and not (isinstance(n, ast.Call) and isinstance(n.func, ast.Name) and n.func.id in ("slice", "len"))
+                            for n in ast.walk(e))
+
+        cands: Dict[str, ast.AST] = {}
+        for st in ast.walk(fn):
+            if isinstance(st, ast.Assign) and len(st.targets) == 1 and isinstance(st.targets[0], ast.Name) and stores.get(st.targets[0].id) == 1 \
+                    and st.targets[0].id not in params:
+                v = st.value
+                if (is_slice_call(v) or (isinstance(v, ast.IfExp) and is_slice_call(v.body) and is_slice_call(v.orelse))) and stable(v):
+                    cands[st.targets[0].id] = v
+        if not cands:
+            continue
+
+        def as_slice(c: ast.Call) -> ast.Slice:
+            a = [None if (isinstance(x, ast.Constant) and x.value is None) else copy.deepcopy(x) for x in c.args]
+            if len(a) == 1:
+                return ast.Slice(lower=None, upper=a[0], step=None)
+            return ast.Slice(lower=a[0], upper=a[1], step=a[2] if len(a) > 2 else None)
+
+        class F(ast.NodeTransformer):
+            def visit_Subscript(self, n):
+                self.generic_visit(n)
+                if isinstance(n.slice, ast.Name) and n.slice.id in cands and isinstance(n.ctx, ast.Load):
+                    v = cands[n.slice.id]
+                    stats["slice_objects_folded"] = stats.get("slice_objects_folded", 0) + 1
+                    if isinstance(v, ast.IfExp):
+                        new = ast.IfExp(test=copy.deepcopy(v.test),
+                                        body=ast.Subscript(value=copy.deepcopy(n.value), slice=as_slice(v.body), ctx=ast.Load()),
+                                        orelse=ast.Subscript(value=copy.deepcopy(n.value), slice=as_slice(v.orelse), ctx=ast.Load()))
+                    else:
+                        new = ast.Subscript(value=n.value, slice=as_slice(v), ctx=ast.Load())
+                    return ast.copy_location(new, n)
+                return n
+
+        F().visit(fn)
+    ast.fix_missing_locations(tree)
+
+
 # --------------------------------------------------------------------------------------------- entry point
 def normalise(tree: ast.Module, modname: str, stats: dict, foreign: Optional[Dict[str, Dict[str, object]]] = None) -> None:
     base = baseline().get(modname)
     if base is None:
         return  # a module the baseline does not know (scripts, new modules): left as it is
     fold_constants(tree, set(base.get("names", [])), stats, foreign)
+    merge_new_bases(tree, set(base.get("names", [])), stats)
     inline_helpers(tree, set(base.get("functions", [])), stats)
     desugar_walrus_loops(tree, stats)
     desugar_suppress(tree, stats)
+    fold_slice_objects(tree, stats)
     split_extension_webs(tree, stats)
